@@ -567,8 +567,8 @@ def _template_ok(rx: str, repl: str) -> bool:
 
 
 RX_QUICK = ('a', '(a)(b)?', '(?P<n>x)|y', '', '[', '(', 'a{2,1}', '\\')
-REPL_QUICK = ('X', '\\1', '\\g<n>', '\\6', '\\', '\\n')
-TEXTS_QUICK = ('', 'ab\n', 'a\nb')
+REPL_QUICK = ('X', '\\1', '\\g<n>', '\\6', '\\')
+TEXTS_QUICK = ('ab\n', 'a\nb')
 
 
 def _pre_k3_replace(r: int, p: int, t: int, preserve: bool, selection: bool) -> bool:
@@ -1228,7 +1228,7 @@ def obligations(tier: str) -> List[Ob]:
     obs.append(Ob(name='K1:site:seeded-oracle-error', fn='k1_site', case=dict(quick=True, site='timeout', oracle_bug=True, n_bound=3),
                   kernel='K1', bound='seeded: timeout = 0 is claimed to be a validation error', timeout=600, expect=ob.REFUTE))
     # ---- K2
-    k2_cases = [('i', 0, 'all'), ('i', 1, 'quick' if quick else 'all'), ('i', 2, 'mini' if quick else 'quick'), ('x', 1, 'mini'),
+    k2_cases = [('i', 0, 'quick' if quick else 'all'), ('i', 1, 'quick' if quick else 'all'), ('i', 2, 'mini' if quick else 'quick'), ('x', 1, 'mini'),
                 ('', 1, 'mini')]
     if not quick:
         k2_cases.append(('', 2, 'mini'))
